@@ -180,3 +180,20 @@ def spec_mul_div_round_up_if(e, n0, n1, d, up):
         ('Err:MulDivOverflow', T.and_(nz, T.not_(fits)), None, []),
         ('Ok', T.and_(nz, fits), v, side),
     ]
+
+
+def spec_mul_shift_right_round_up_if(e, n0, n1, up):
+    """checked_mul_shift_right_round_up_if(n0, n1, up): floor/ceil of n0*n1 / 2^64 as u64; zero factor => 0;
+    Err(MultiplicationShiftRightOverflow) iff the product does not fit u128; Err(MultiplicationOverflow) iff rounding up overflows u64"""
+    P = T.mul(n0, n1)
+    zero = T.or_(T.cmp('=', n0, C(0)), T.cmp('=', n1, C(0)))
+    fits = T.cmp('<', P, P2(128))
+    q = T.div(P, W64); r = T.mod(P, W64)
+    rnd = T.and_(up, T.cmp('>', r, C(0)))
+    v = T.add(q, T.ite(rnd, C(1), C(0)))
+    top = T.and_(rnd, T.cmp('=', q, C((1 << 64) - 1)))
+    return [
+        ('Err:MultiplicationShiftRightOverflow', T.and_(T.not_(zero), T.not_(fits)), None, []),
+        ('Err:MultiplicationOverflow', T.and_(T.not_(zero), fits, top), None, []),
+        ('Ok', T.or_(zero, T.and_(fits, T.not_(top))), T.ite(zero, C(0), v), []),
+    ]
